@@ -27,15 +27,17 @@ func init() {
 	register(&Property{
 		ID:        "C08",
 		Title:     "Rendered iptables/nftables rules match exactly what the policy rule says",
-		Technique: "static analysis: field-coverage, call-string-sensitive may-derive data flow from proto.Rule fields to MatchCriteria methods, forward flow of matches into Rule literals, phi/guard table of the action switch, constant format-string pairing of sibling matchers (go/ssa over felix/rules, felix/iptables, felix/nftables)",
+		Technique: "static analysis: field-coverage, call-string-sensitive may-derive data flow from proto.Rule fields to MatchCriteria methods, forward flow of matches into Rule literals, phi/guard table of the action switch, constant format-string pairing of sibling matchers, must-be-fresh origin analysis of written messages, guard (cut) analysis of version-dependent choices resolved to the root parameter (go/ssa over felix/rules, felix/iptables, felix/nftables)",
 		DesignRef: "DESIGN.md §3 C08",
 		Explanation: "Decides structural necessary conditions of exact rendering: (cover) every match field of proto.Rule is read in the closure of ProtoRuleToIptablesRules and reaches at least one MatchCriteria method of its family; " +
 			"(wiring) at every MatchCriteria call reachable from ProtoRuleToIptablesRules, in every feasible call-string context, each argument derived from rule field F is passed to a matcher of F's family, F's direction (Src↔Source, Dst↔Dest) and F's polarity, " +
 			"where polarity = Not-prefix of the method XOR 'the Rule literal the match is stored in clears the all-blocks-pass bit' (negated block); oneof wrappers (type vs type+code, name vs number) and ICMP v4/v6 methods agree with their guards; non-field matchers receive no rule-field data; " +
 			"(scratch) every mark operand used by matchBlockBuilder (actions and mark matches) derives only from its two mark fields (or zero), which its only constructor initialises from Config.MarkScratch0/1, and the final match tests markAllBlocksPass; " +
 			"(actions) in CombineMatchAndActionsForProtoRule the mark set on match is MarkAccept exactly under \"\"/allow, MarkPass under pass/next-tier, MarkDrop under deny (with the deny action; allow/pass return), the SetMark rule carries the full match, and unknown actions panic; " +
-			"(nft) for both back ends every Not* matcher renders its positive sibling's fragment with exactly one negation operator, and Source*/Dest* siblings render different fragments.",
-		NotDecided: "Kernel evaluation of the rendered rules; port-split arithmetic (SplitPortList 15-slot packing), CIDR/IP-version filtering arithmetic, the algebra of the mark-bit blocks (that OR-within-block / AND-across-blocks is what the emitted sequence computes), textual syntax accepted by iptables-restore/nft.",
+			"(nft) for both back ends every Not* matcher renders its positive sibling's fragment with exactly one negation operator, and Source*/Dest* siblings render different fragments; " +
+			"(private) every write into a felix/proto message reachable from ProtoRuleToIptablesRules / FilterRuleToIPVersion inside felix/rules targets, on every phi/return path and in every call-string context, a fresh allocation or a deep copy (proto.Clone / Clone* / DeepCopy*), never the rule passed in by the caller (which is rendered again for the other IP version / table / re-render); " +
+			"(ipver) within one rendering every IPv4/IPv6-dependent choice — use or selection of Config.IPSetConfigV4 vs V6, ICMP* vs ICMPV6* matcher, the version handed to FilterRuleToIPVersion and to every helper that receives it — is decided on the ipVersion parameter of ProtoRuleToIptablesRules (resolved through the call string, closures and captured variables), never on the rule's optional ip_version field or a constant.",
+		NotDecided: "Kernel evaluation of the rendered rules; port-split arithmetic (SplitPortList 15-slot packing), CIDR/IP-version filtering arithmetic, the algebra of the mark-bit blocks (that OR-within-block / AND-across-blocks is what the emitted sequence computes), textual syntax accepted by iptables-restore/nft; mutation of the caller's rule through opaque callees (sort, proto.Merge, append into a shared backing array) or by renderers outside felix/rules; whether callers pass an ipVersion that agrees with the table the rules are programmed into.",
 		Assumptions: []string{
 			"go/types + go/ssa (x/tools v0.50.0) model of the current source, CGO_ENABLED=0 build",
 			"a call without an analysable body returns data derived only from its arguments/receiver",
@@ -72,6 +74,22 @@ func init() {
 				Old: "\t\t\tAction: r.IptablesFilterDenyAction(),\n\t\t})\n\tcase \"log\":", New: "\t\t\tAction: r.Return(),\n\t\t})\n\tcase \"log\":", Expect: "C08.actions/verdict/deny"},
 			{Name: "iptables NotDestNet loses its negation", File: "felix/iptables/match_builder.go",
 				Old: "fmt.Sprintf(\"! --destination %s\", net)", New: "fmt.Sprintf(\"--destination %s\", net)", Expect: "C08.nft/negation/iptables.matchCriteria.NotDestNet"},
+			{Name: "FilterRuleToIPVersion returns the caller's rule on a no-CIDR fast path", File: "felix/rules/policy.go",
+				Old: "\truleCopy.SrcNet, filteredAll = filterNets(pRule.SrcNet, ipVersion, false)", New: "\tif len(pRule.SrcNet)+len(pRule.DstNet) == 0 {\n\t\treturn pRule\n\t}\n\truleCopy.SrcNet, filteredAll = filterNets(pRule.SrcNet, ipVersion, false)", Expect: "C08.private/DefaultRuleRenderer.ProtoRuleToIptablesRules/Rule.SrcPorts"},
+			{Name: "negated dst CIDRs consumed from the caller's rule instead of the working copy", File: "felix/rules/policy.go",
+				Old: "matchBlockBuilder.AppendNegatedCIDRMatchBlock(ruleCopy.NotDstNet, dst)\n\t\t// Since we're using a block for this, nil out the match.\n\t\truleCopy.NotDstNet = nil", New: "matchBlockBuilder.AppendNegatedCIDRMatchBlock(ruleCopy.NotDstNet, dst)\n\t\t// Since we're using a block for this, nil out the match.\n\t\tpRule.NotDstNet, ruleCopy.NotDstNet = nil, nil", Expect: "C08.private/DefaultRuleRenderer.ProtoRuleToIptablesRules/Rule.NotDstNet"},
+			{Name: "FilterRuleToIPVersion filters the src CIDRs of the caller's rule in place", File: "felix/rules/policy.go",
+				Old: "\truleCopy.SrcNet, filteredAll = filterNets(pRule.SrcNet, ipVersion, false)", New: "\tpRule.SrcNet, filteredAll = filterNets(pRule.SrcNet, ipVersion, false)\n\truleCopy.SrcNet = pRule.SrcNet", Expect: "C08.private/FilterRuleToIPVersion/Rule.SrcNet"},
+			{Name: "port-block IP set config chosen from the rule's optional ip_version", File: "felix/rules/policy.go",
+				Old: "\tif ipVersion == 4 {\n\t\tipSetConfig = r.IPSetConfigV4\n\t} else {", New: "\tif ruleCopy.IpVersion != proto.IPVersion_IPV6 {\n\t\tipSetConfig = r.IPSetConfigV4\n\t} else {", Expect: "C08.ipver/ipset/DefaultRuleRenderer.ProtoRuleToIptablesRules/IPSetConfigV6"},
+			{Name: "main-rule IP set names chosen from the rule's optional ip_version", File: "felix/rules/policy.go",
+				Old: "\t\tif ipVersion == 4 {\n\t\t\treturn r.IPSetConfigV4.NameForMainIPSet(ipsetID)", New: "\t\tif pRule.IpVersion != proto.IPVersion_IPV6 {\n\t\t\treturn r.IPSetConfigV4.NameForMainIPSet(ipsetID)", Expect: "C08.ipver/ipset/DefaultRuleRenderer.CalculateRuleMatch/IPSetConfigV4"},
+			{Name: "negated ICMP matcher family chosen from the rule's optional ip_version", File: "felix/rules/policy.go",
+				Old: "\tif ipVersion == 4 {\n\t\tswitch icmp := pRule.NotIcmp.(type) {", New: "\tif pRule.IpVersion != proto.IPVersion_IPV6 {\n\t\tswitch icmp := pRule.NotIcmp.(type) {", Expect: "C08.ipver/icmp/DefaultRuleRenderer.CalculateRuleMatch/NotICMPV6Type"},
+			{Name: "rule filtered to its own declared ip_version instead of the rendered one", File: "felix/rules/policy.go",
+				Old: "ruleCopy := FilterRuleToIPVersion(ipVersion, pRule)", New: "ruleCopy := FilterRuleToIPVersion(uint8(pRule.IpVersion), pRule)", Expect: "C08.ipver/arg/FilterRuleToIPVersion/0"},
+			{Name: "negated CIDRs filtered for a fixed IP version", File: "felix/rules/policy.go",
+				Old: "filterNets(pRule.NotDstNet, ipVersion, true)", New: "filterNets(pRule.NotDstNet, 4, true)", Expect: "C08.ipver/arg/filterNets/1"},
 			{Name: "nft DestIPSet matches on saddr", File: "felix/nftables/match_builder.go",
 				Old: "fmt.Sprintf(\"<IPV> daddr @%s\", LegalizeSetName(name))", New: "fmt.Sprintf(\"<IPV> saddr @%s\", LegalizeSetName(name))", Expect: "C08.nft/direction/nftables.nftMatch.DestIPSet"},
 		},
@@ -258,6 +276,11 @@ func runC08(c *Ctx) {
 	c08Scratch(m)
 	c08Actions(m)
 	c08Siblings(m)
+
+	c.Rule("C08.private", "E-FLOW", "every write into a felix/proto message in the closure of ProtoRuleToIptablesRules / FilterRuleToIPVersion targets, on every path and in every call-string context, a fresh allocation or deep copy — never the caller's rule", 12)
+	c.Rule("C08.ipver", "E-GUARD", "every IPv4/IPv6-dependent choice of one rendering (IPSetConfigV4/V6 use, ICMP vs ICMPV6 matcher, version argument of helpers) is decided on the ipVersion parameter of ProtoRuleToIptablesRules", 16)
+	c08Private(m)
+	c08IPVer(m)
 }
 
 // -------------------------------------------------------------------- cover --
@@ -437,11 +460,7 @@ func c08Wiring(m *c08Model) map[string]map[string]bool {
 						}
 					}
 				}
-				if mc.Fam == "icmp" {
-					if pr := c08IcmpVersionProblem(call, meth); pr != "" {
-						probs = append(probs, pr)
-					}
-				}
+				// (the v4/v6 family of ICMP matchers is decided by C08.ipver/icmp)
 				if len(probs) > 0 {
 					add(key, site, false, fmt.Sprintf("in context %s: value of proto.Rule.%s passed to %s: %s", ctx, f, meth, strings.Join(probs, "; ")))
 				} else {
@@ -504,59 +523,6 @@ func c08WrapperProblem(wrapper, meth string) string {
 		if base != "ProtocolNum" {
 			return "protocol number passed to " + meth
 		}
-	}
-	return ""
-}
-
-// c08IcmpVersionProblem: ICMP (v4) matchers only where a uint8 parameter is
-// known to equal 4; ICMPV6 matchers only where it is known to differ from 4 (or
-// equal 6).
-func c08IcmpVersionProblem(call *ssa.Call, meth string) string {
-	v6 := strings.Contains(meth, "ICMPV6")
-	okGuard := false
-	for _, g := range guardsOf(call) {
-		bo, ok := g.Cond.(*ssa.BinOp)
-		if !ok || (bo.Op != token.EQL && bo.Op != token.NEQ) {
-			continue
-		}
-		isEq := g.True
-		if bo.Op == token.NEQ {
-			isEq = !isEq
-		}
-		var cst *ssa.Const
-		var other ssa.Value
-		if k, ok := bo.Y.(*ssa.Const); ok {
-			cst, other = k, bo.X
-		} else if k, ok := bo.X.(*ssa.Const); ok {
-			cst, other = k, bo.Y
-		}
-		if cst == nil || cst.Value == nil {
-			continue
-		}
-		if _, isParam := other.(*ssa.Parameter); !isParam {
-			if fv, isFV := other.(*ssa.UnOp); !isFV || fv.Op != token.MUL {
-				continue
-			}
-		}
-		if b, ok := other.Type().Underlying().(*types.Basic); !ok || b.Kind() != types.Uint8 {
-			continue
-		}
-		switch cst.Value.ExactString() {
-		case "4":
-			if isEq == !v6 {
-				okGuard = true
-			}
-		case "6":
-			if isEq && v6 {
-				okGuard = true
-			}
-		}
-	}
-	if !okGuard {
-		if v6 {
-			return meth + " is not guarded by ipVersion != 4 / == 6"
-		}
-		return meth + " is not guarded by ipVersion == 4"
 	}
 	return ""
 }
@@ -1175,6 +1141,491 @@ func c08Siblings(m *c08Model) {
 				c.Check(!same, key, p.Pos(meths[sib].Pos()), fmt.Sprintf("%s %q and %s %q differ", name, a, sib, b),
 					fmt.Sprintf("%s.%s renders the same fragment as %s (%q): source and destination are not distinguished", short, sib, name, b))
 			}
+		}
+	}
+}
+
+// ------------------------------------------------------------------ private --
+//
+// C08.private — the renderer never writes through the rule it was given.
+//
+// ProtoRuleToIptablesRules consumes criteria from its working copy while it
+// renders them as match blocks (it nils the port / CIDR lists it has already
+// handled).  That is only sound if the object written to is private to this one
+// rendering: the *proto.Rule handed in is owned by the caller (it sits inside the
+// ActivePolicyUpdate that is rendered again for the other IP version, for the
+// raw table, on every re-render) — a store through it silently removes criteria
+// from every later rendering, which then match packets the policy rule does not.
+//
+// Obligation: for every instruction in felix/rules, reachable from
+// ProtoRuleToIptablesRules (or FilterRuleToIPVersion on its own, which other
+// renderers call) through static calls, that writes into a felix/proto message
+// (field store, element store, map update, delete/copy/clear on a field), the
+// written object is — in every call-string context and along every phi / return
+// path — a fresh allocation or the result of a deep copy; never a parameter of
+// the entry function and never a pointer loaded from somewhere else.
+
+// c08IsCopyCall: a call whose result is a new, deep copy of a message.
+func c08IsCopyCall(call *ssa.Call) bool {
+	f := calleeOf(call.Common())
+	if f == nil {
+		return false
+	}
+	if f.Pkg() != nil && f.Pkg().Path() == "google.golang.org/protobuf/proto" && (f.Name() == "Clone" || f.Name() == "CloneOf") {
+		return true
+	}
+	if sig, ok := f.Type().(*types.Signature); ok && sig.Recv() != nil {
+		return strings.HasPrefix(f.Name(), "Clone") || strings.HasPrefix(f.Name(), "DeepCopy")
+	}
+	return false
+}
+
+func c08IsProtoMsg(t types.Type) bool {
+	t = derefType(t)
+	n, ok := types.Unalias(t).(*types.Named)
+	if !ok || n.Obj().Pkg() == nil {
+		return false
+	}
+	if _, isStruct := n.Underlying().(*types.Struct); !isStruct {
+		return false
+	}
+	return strings.TrimPrefix(n.Obj().Pkg().Path(), calicoPrefix) == c08ProtoPkg
+}
+
+// c08MutTarget walks a written address back to the object that owns it.
+// desc names the outermost message field on the way ("Rule.SrcPorts"), nested
+// is true if the address was reached through a pointer/slice/map *loaded* from
+// the owner (a shallow copy of the owner would still share that memory).
+func c08MutTarget(addr ssa.Value) (owner ssa.Value, desc string, nested, ok bool) {
+	cur := addr
+	for depth := 0; depth < 40; depth++ {
+		switch x := cur.(type) {
+		case *ssa.FieldAddr:
+			if c08IsProtoMsg(x.X.Type()) {
+				ok = true
+				desc = namedTypeName(x.X.Type()) + "." + fieldName(x.X.Type(), x.Field)
+			}
+			cur = x.X
+			continue
+		case *ssa.IndexAddr:
+			cur = x.X
+			continue
+		case *ssa.Slice:
+			cur = x.X
+			continue
+		case *ssa.UnOp:
+			if x.Op == token.MUL {
+				switch x.X.(type) {
+				case *ssa.FieldAddr, *ssa.IndexAddr:
+					nested = true
+					cur = x.X
+					continue
+				}
+			}
+		}
+		break
+	}
+	owner = cur
+	if !ok && addr == cur && c08IsProtoMsg(cur.Type()) {
+		if _, isPtr := cur.Type().Underlying().(*types.Pointer); isPtr {
+			// *p = proto.Rule{...}: whole-message overwrite
+			return cur, namedTypeName(cur.Type()) + ".*", false, true
+		}
+	}
+	return owner, desc, nested, ok
+}
+
+// c08Mutation: does instruction in write into a felix/proto message?
+func c08Mutation(in ssa.Instruction) (owner ssa.Value, desc string, nested, ok bool) {
+	switch x := in.(type) {
+	case *ssa.Store:
+		if _, isLocal := x.Addr.(*ssa.Alloc); isLocal {
+			return nil, "", false, false
+		}
+		return c08MutTarget(x.Addr)
+	case *ssa.MapUpdate:
+		return c08MutTarget(x.Map)
+	case *ssa.Call:
+		for _, b := range []string{"delete", "copy", "clear"} {
+			if cc, is := isBuiltinCall(in, b); is && len(cc.Args) > 0 {
+				o, d, _, k := c08MutTarget(cc.Args[0])
+				if _, direct := cc.Args[0].(*ssa.UnOp); k && direct {
+					return o, d, true, true
+				}
+			}
+		}
+	}
+	return nil, "", false, false
+}
+
+func c08Private(m *c08Model) {
+	c, p := m.c, m.p
+	filter := p.Func(c08RulesPkg, "FilterRuleToIPVersion")
+	if filter == nil {
+		c.Lost("FilterRuleToIPVersion")
+	}
+	type agg struct {
+		site     string
+		bad, und []string
+		ok       map[string]bool
+	}
+	res := map[string]*agg{}
+	visited := map[ssa.Instruction]bool{}
+	for _, root := range []*ssa.Function{m.root, filter} {
+		c08Instances(root, m.inRP, func(ctx *c08Ctx) {
+			allInstrs(ctx.fn, false, func(fn *ssa.Function, in ssa.Instruction) {
+				owner, desc, nested, ok := c08Mutation(in)
+				if !ok {
+					return
+				}
+				visited[in] = true
+				key := "C08.private/" + fnName(topFn(fn)) + "/" + desc
+				a := res[key]
+				if a == nil {
+					a = &agg{site: p.Pos(in.Pos()), ok: map[string]bool{}}
+					res[key] = a
+				}
+				leaves := c08ValueLeaves(owner, ctx, m.inRP)
+				n := 0
+				for _, l := range leaves {
+					where := "in context " + ctx.String()
+					switch x := l.V.(type) {
+					case *ssa.Const:
+						continue // nil: no object
+					case *ssa.Alloc:
+						n++
+						if nested {
+							a.und = append(a.und, fmt.Sprintf("%s: write to %s goes through a pointer/slice loaded from a locally allocated message; a shallow copy would share it", where, desc))
+						} else {
+							a.ok["fresh allocation"] = true
+						}
+					case *ssa.Call:
+						n++
+						if c08IsCopyCall(x) {
+							a.ok["deep copy ("+calleeOf(x.Common()).Name()+")"] = true
+						} else {
+							a.und = append(a.und, fmt.Sprintf("%s: written message is the result of %s, whose ownership cannot be decided", where, path(x)))
+						}
+					case *ssa.Parameter:
+						n++
+						a.bad = append(a.bad, fmt.Sprintf("%s: the written message can be parameter %q of %s itself (reached without a copy): the store to %s changes the caller's rule, so every later rendering of the same policy loses that criterion",
+							where, x.Name(), fnName(x.Parent()), desc))
+					default:
+						n++
+						if _, _, _, isField := fieldOf(l.V); isField || isGlobal(l.V) {
+							a.bad = append(a.bad, fmt.Sprintf("%s: the written message is shared state %s, not a private copy", where, path(l.V)))
+						} else {
+							a.und = append(a.und, fmt.Sprintf("%s: cannot decide who owns the written message %s", where, path(l.V)))
+						}
+					}
+				}
+				if n == 0 {
+					a.und = append(a.und, "in context "+ctx.String()+": no origin found for the written message")
+				}
+			})
+		})
+	}
+	// Fail closed: writes in functions only reachable dynamically.
+	for fn := range p.closure(m.root, filter) {
+		if fn.Blocks == nil || !m.inRP(fn) {
+			continue
+		}
+		allInstrs(fn, false, func(f *ssa.Function, in ssa.Instruction) {
+			if _, desc, _, ok := c08Mutation(in); ok && !visited[in] {
+				c.Undecided("C08.private/"+fnName(topFn(f))+"/"+desc+"/unvisited", p.Pos(in.Pos()),
+					"write into a proto message in a function reached only through dynamic calls; ownership of the written object cannot be traced")
+			}
+		})
+	}
+	for _, key := range sortedKeys(res) {
+		a := res[key]
+		switch {
+		case len(a.bad) > 0:
+			c.Violate(key, a.site, "%s", strings.Join(c08Uniq(a.bad), " | "))
+		case len(a.und) > 0:
+			c.Undecided(key, a.site, "%s", strings.Join(c08Uniq(a.und), " | "))
+		default:
+			c.Ok(key, a.site, "written object is always private: %s", strings.Join(sortedKeys(a.ok), ", "))
+		}
+	}
+}
+
+func isGlobal(v ssa.Value) bool {
+	if u, ok := v.(*ssa.UnOp); ok && u.Op == token.MUL {
+		v = u.X
+	}
+	_, ok := v.(*ssa.Global)
+	return ok
+}
+
+func c08Uniq(in []string) []string {
+	seen := map[string]bool{}
+	var out []string
+	for _, s := range in {
+		if !seen[s] {
+			seen[s] = true
+			out = append(out, s)
+		}
+	}
+	return out
+}
+
+// -------------------------------------------------------------------- ipver --
+//
+// C08.ipver — one rendering, one IP version.
+//
+// ProtoRuleToIptablesRules renders a rule for the IP version given by its
+// ipVersion parameter (the table the rules go into).  proto.Rule.IpVersion is an
+// optional *filter* on top of that (normally ANY).  Every decision that differs
+// between IPv4 and IPv6 inside one rendering must therefore be taken on the
+// parameter:
+//
+//   ipset  the value of Config.IPSetConfigV4 (V6) is only ever used / selected
+//          where `ipVersion == 4` (`!= 4` / `== 6`) is established, with the
+//          compared value resolved through the call string, closures and
+//          captured variables to that parameter;
+//   icmp   ICMP* matchers are only called where v4 is established, ICMPV6*
+//          where v6 is;
+//   arg    FilterRuleToIPVersion, and every felix/rules function that receives
+//          the rendering version in some context, receives it in all contexts.
+
+// c08VersionParam returns the unique parameter of fn with type uint8.
+func c08VersionParam(fn *ssa.Function) *ssa.Parameter {
+	var out *ssa.Parameter
+	for _, pa := range fn.Params {
+		if b, ok := types.Unalias(pa.Type()).(*types.Basic); ok && b.Kind() == types.Uint8 {
+			if out != nil {
+				return nil
+			}
+			out = pa
+		}
+	}
+	return out
+}
+
+func c08IPVer(m *c08Model) {
+	c, p := m.c, m.p
+	ver := c08VersionParam(m.root)
+	if ver == nil {
+		c.Lost("the (unique) uint8 IP-version parameter of ProtoRuleToIptablesRules")
+	}
+	filter := p.Func(c08RulesPkg, "FilterRuleToIPVersion")
+	if filter == nil {
+		c.Lost("FilterRuleToIPVersion")
+	}
+	filterVer := c08VersionParam(filter)
+	if filterVer == nil {
+		c.Lost("the (unique) uint8 IP-version parameter of FilterRuleToIPVersion")
+	}
+	cfgField := map[*types.Var]bool{} // true = v4
+	for name, v4 := range map[string]bool{"IPSetConfigV4": true, "IPSetConfigV6": false} {
+		fv, _ := p.LookupObj(c08RulesPkg, "Config."+name).(*types.Var)
+		if fv == nil {
+			c.Lost("rules.Config.%s", name)
+		}
+		cfgField[fv] = v4
+	}
+
+	// isVer: v is, in ctx, the rendering's IP version and nothing else.
+	isVer := func(v ssa.Value, ctx *c08Ctx) bool {
+		ls := c08ValueLeaves(v, ctx, m.inRP)
+		if len(ls) == 0 {
+			return false
+		}
+		for _, l := range ls {
+			if l.V != ssa.Value(ver) {
+				return false
+			}
+		}
+		return true
+	}
+	// family(want4)(ctx): edge predicate "the rendering version is 4" / "is not 4".
+	family := func(want4 bool) func(*c08Ctx) EdgePred {
+		return func(ctx *c08Ctx) EdgePred {
+			return func(cond ssa.Value, pol bool) bool {
+				cctx := ctx
+				if _, isBin := cond.(*ssa.BinOp); !isBin {
+					// a boolean computed elsewhere (parameter, captured variable)
+					ls := c08ValueLeaves(cond, ctx, m.inRP)
+					if len(ls) != 1 {
+						return false
+					}
+					cond, pol = stripNot(ls[0].V, pol)
+					cctx = ls[0].Ctx
+				}
+				bo, ok := cond.(*ssa.BinOp)
+				if !ok || (bo.Op != token.EQL && bo.Op != token.NEQ) {
+					return false
+				}
+				isEq := pol
+				if bo.Op == token.NEQ {
+					isEq = !isEq
+				}
+				var k constant.Value
+				var other ssa.Value
+				if kv, ok := constOf(bo.Y); ok {
+					k, other = kv, bo.X
+				} else if kv, ok := constOf(bo.X); ok {
+					k, other = kv, bo.Y
+				}
+				if k == nil || k.Kind() != constant.Int || !isVer(other, cctx) {
+					return false
+				}
+				switch k.ExactString() {
+				case "4":
+					return isEq == want4
+				case "6":
+					return isEq == !want4
+				}
+				return false
+			}
+		}
+	}
+	famName := map[bool]string{true: "ipVersion == 4", false: "ipVersion != 4 (or == 6)"}
+
+	type agg struct {
+		site string
+		bad  []string
+		n    int
+	}
+	res := map[string]*agg{}
+	get := func(key, site string) *agg {
+		a := res[key]
+		if a == nil {
+			a = &agg{site: site}
+			res[key] = a
+		}
+		a.n++
+		return a
+	}
+	type argStat struct {
+		site       string
+		nVer, nNot int
+		bad        []string
+	}
+	args := map[string]*argStat{}
+	argKey := func(fn *ssa.Function, i int) string {
+		return fmt.Sprintf("C08.ipver/arg/%s/%d", fnName(fn), i)
+	}
+	// anchor: FilterRuleToIPVersion's version parameter is a version parameter
+	// whether or not it receives one today.
+	for i, pa := range filter.Params {
+		if pa == filterVer {
+			args[argKey(filter, i)] = &argStat{site: p.Pos(filter.Pos())}
+		}
+	}
+	visitedRead := map[ssa.Instruction]bool{}
+
+	c08Instances(m.root, m.inRP, func(ctx *c08Ctx) {
+		// arg: what does each parameter receive in this context?
+		if ctx.call != nil && !ctx.call.Common().IsInvoke() {
+			cargs := ctx.call.Common().Args
+			for i := range ctx.fn.Params {
+				if i >= len(cargs) {
+					break
+				}
+				k := argKey(ctx.fn, i)
+				st := args[k]
+				if isVer(cargs[i], ctx.parent) {
+					if st == nil {
+						st = &argStat{site: p.Pos(ctx.call.Pos())}
+						args[k] = st
+					}
+					st.nVer++
+				} else if b, ok := types.Unalias(ctx.fn.Params[i].Type()).(*types.Basic); ok && b.Kind() == types.Uint8 {
+					if st == nil {
+						st = &argStat{site: p.Pos(ctx.call.Pos())}
+						args[k] = st
+					}
+					st.nNot++
+					st.bad = append(st.bad, fmt.Sprintf("in context %s parameter %q receives %s, which is not the ipVersion being rendered", ctx, ctx.fn.Params[i].Name(), path(cargs[i])))
+				}
+			}
+		}
+		allInstrs(ctx.fn, false, func(fn *ssa.Function, in ssa.Instruction) {
+			// ipset: uses of a loaded Config.IPSetConfigV4/V6
+			if ld, ok := in.(*ssa.UnOp); ok && ld.Op == token.MUL {
+				if fa, ok := ld.X.(*ssa.FieldAddr); ok {
+					if v4, is := cfgField[structField(fa.X.Type(), fa.Field)]; is {
+						visitedRead[in] = true
+						name := fieldName(fa.X.Type(), fa.Field)
+						a := get("C08.ipver/ipset/"+fnName(topFn(fn))+"/"+name, p.Pos(in.Pos()))
+						mk := family(v4)
+						refs := ld.Referrers()
+						uses := 0
+						if refs != nil {
+							for _, r := range *refs {
+								if _, dbg := r.(*ssa.DebugRef); dbg {
+									continue
+								}
+								uses++
+								okUse := false
+								if ph, isPhi := r.(*ssa.Phi); isPhi {
+									okUse = true
+									for i, e := range ph.Edges {
+										if e == ssa.Value(ld) && !c08EstablishedOnEdge(ph.Block().Preds[i], ph.Block(), ctx, mk) {
+											okUse = false
+										}
+									}
+								} else {
+									okUse = c08EstablishedAt(r, ctx, mk)
+								}
+								if !okUse {
+									a.bad = append(a.bad, fmt.Sprintf("in context %s the value of Config.%s is used/selected at %s on a path where %s is not established on the rendering's ipVersion parameter (IP set names of the wrong family end up in the rendered rules)",
+										ctx, name, p.Pos(r.Pos()), famName[v4]))
+								}
+							}
+						}
+						_ = uses
+					}
+				}
+			}
+			// icmp: family of the ICMP matcher
+			if call, ok := in.(*ssa.Call); ok && c08IsInvokeOf(call.Common(), c08MatchIface) {
+				meth := call.Common().Method.Name()
+				if c08ClassifyMethod(meth).Fam == "icmp" {
+					v4 := !strings.Contains(meth, "ICMPV6")
+					a := get("C08.ipver/icmp/"+fnName(topFn(fn))+"/"+meth, p.Pos(in.Pos()))
+					if !c08EstablishedAt(call, ctx, family(v4)) {
+						a.bad = append(a.bad, fmt.Sprintf("in context %s %s is called on a path where %s is not established on the rendering's ipVersion parameter", ctx, meth, famName[v4]))
+					}
+				}
+			}
+		})
+	})
+	// Fail closed: reads of the two config fields in dynamically reached code.
+	for fn := range p.closure(m.root) {
+		if fn.Blocks == nil || !m.inRP(fn) {
+			continue
+		}
+		allInstrs(fn, false, func(f *ssa.Function, in ssa.Instruction) {
+			if ld, ok := in.(*ssa.UnOp); ok && ld.Op == token.MUL && !visitedRead[in] {
+				if fa, ok := ld.X.(*ssa.FieldAddr); ok {
+					if _, is := cfgField[structField(fa.X.Type(), fa.Field)]; is {
+						c.Undecided("C08.ipver/ipset/"+fnName(topFn(f))+"/"+fieldName(fa.X.Type(), fa.Field)+"/unvisited", p.Pos(in.Pos()),
+							"IP set config read in a function reached only through dynamic calls; its version guard cannot be tied to the rendering's ipVersion")
+					}
+				}
+			}
+		})
+	}
+	for _, key := range sortedKeys(res) {
+		a := res[key]
+		if len(a.bad) > 0 {
+			c.Violate(key, a.site, "%s", strings.Join(c08Uniq(a.bad), " | "))
+		} else {
+			c.Ok(key, a.site, "version family established on the ipVersion parameter in %d context(s)", a.n)
+		}
+	}
+	for _, key := range sortedKeys(args) {
+		st := args[key]
+		switch {
+		case st.nNot > 0:
+			c.Violate(key, st.site, "%s", strings.Join(c08Uniq(st.bad), " | "))
+		case st.nVer == 0:
+			c.Violate(key, st.site, "the IP-version parameter never receives the ipVersion being rendered (no call from ProtoRuleToIptablesRules passes it)")
+		default:
+			c.Ok(key, st.site, "receives the rendering's ipVersion in all %d context(s)", st.nVer)
 		}
 	}
 }
